@@ -160,6 +160,8 @@ class Env(object):
                 attrs[col.get('attr', col['name'])] = sa.orm.deferred(column) if col.get('deferred') else column
                 if col.get('discriminator'):
                     margs['polymorphic_on'] = column
+            if inherit == 'concrete':
+                margs['concrete'] = True
             if c.get('polymorphic_identity') is not None:
                 margs['polymorphic_identity'] = c['polymorphic_identity']
             if c.get('with_polymorphic'):
@@ -399,6 +401,17 @@ def shape_joined(opts=None, levels=2, plugins=()):
         classes.append({'name': 'BlogPost', 'table': 'blog_post', 'parent': 'Article', 'inherit': 'joined',
                         'versioned': None, 'polymorphic_identity': 'bp', 'columns': [
                             col('id', 'int', pk=True, fk='article.id'), col('title', 'str')], 'rels': []})
+    return {'classes': classes, 'options': dict(opts or {}), 'plugins': list(plugins)}
+
+
+def shape_concrete(opts=None, plugins=()):
+    """concrete-table inheritance: Article(TextItem) has a table of its own with all columns and a key space of its own"""
+    classes = [
+        {'name': 'TextItem', 'table': 'text_item', 'versioned': {}, 'columns': [
+            col('id', 'int', pk=True), col('name', 'str')], 'rels': []},
+        {'name': 'Article', 'table': 'article', 'parent': 'TextItem', 'inherit': 'concrete', 'versioned': None,
+         'columns': [col('id', 'int', pk=True), col('name', 'str'), col('content', 'str')], 'rels': []},
+    ]
     return {'classes': classes, 'options': dict(opts or {}), 'plugins': list(plugins)}
 
 
